@@ -1126,6 +1126,56 @@ class IdRig:
                 "final": self.live_ids()}
 
 
+class _ReplayClock:
+    """stands in for the `time` module inside paramiko.transport during a replay: the replay decides when an
+    open_channel call has waited long enough"""
+    def __init__(self):
+        self.now = 1000.0
+
+    def time(self):
+        return self.now
+
+    def __getattr__(self, name):
+        return getattr(time, name)
+
+
+class _PokeEvent:
+    """threading.Event whose waiters can also be woken without setting it (after the clock was moved)"""
+    cond = threading.Condition()
+
+    def __init__(self):
+        self._flag = False
+
+    def is_set(self):
+        return self._flag
+
+    def set(self):
+        with _PokeEvent.cond:
+            self._flag = True
+            _PokeEvent.cond.notify_all()
+
+    def clear(self):
+        self._flag = False
+
+    def wait(self, timeout=None):
+        with _PokeEvent.cond:
+            if not self._flag:
+                _PokeEvent.cond.wait(0.05 if timeout is None else min(timeout, 0.05))
+            return self._flag
+
+    @staticmethod
+    def poke():
+        with _PokeEvent.cond:
+            _PokeEvent.cond.notify_all()
+
+
+class _ReplayThreading:
+    Event = _PokeEvent
+
+    def __getattr__(self, name):
+        return getattr(threading, name)
+
+
 def id_replay(hist, n_model):
     """execute a behaviour of ChannelIds_Gen on a real Transport.  Model id i stands for the real id
     (BASE + ((i - c0) mod N)) mod 2^24 where c0 is the model's initial counter and BASE is just below 2^24, so
@@ -1136,9 +1186,66 @@ def id_replay(hist, n_model):
 
     def real(i):
         return (base + ((i - c0) % n_model)) & MASK24
+    import paramiko.transport as ptr
+    saved_mods = (ptr.threading, ptr.time)
+    clock = _ReplayClock()
+    ptr.threading, ptr.time = _ReplayThreading(), clock
+    try:
+        return _id_replay(hist, real, c0, live0, clock)
+    finally:
+        ptr.threading, ptr.time = saved_mods
+
+
+def _id_replay(hist, real, c0, live0, clock):
     rig = IdRig(real(c0))
     rig.role = "A"
     diffs = []
+    waiting = {}                          # real id -> (thread, result) of an open_channel call that is waiting
+
+    def open_and_wait(mid, step):
+        """open_channel in a thread of its own; returns once its CHANNEL_OPEN has gone out"""
+        res = {}
+
+        def body():
+            try:
+                res["chan"] = rig.t.open_channel("session", timeout=1000)
+            except Exception as e:  # noqa
+                res["exc"] = e
+        rig.reply_mode = "queue"
+        n0 = len(rig.inbox)
+        th = threading.Thread(target=body, daemon=True)
+        th.start()
+        end = time.time() + 20
+        while len(rig.inbox) == n0 and th.is_alive() and time.time() < end:
+            time.sleep(0.0005)
+        rig.reply_mode = "accept"
+        if len(rig.inbox) == n0:
+            raise RuntimeError("open_channel did not send its CHANNEL_OPEN")
+        rid = rig.inbox.pop()
+        if rid != real(mid):
+            diffs.append({"step": step, "op": "local_open_send", "spec": real(mid), "code": rid})
+        if rid in waiting:        # the code handed out an id that another waiting open holds
+            diffs.append({"step": step, "op": "id_of_waiting_open_reused", "spec": real(mid), "code": rid})
+            waiting[("dup", step)] = waiting[rid]
+        waiting[rid] = (th, res)
+        return rid
+
+    def finish(rid, how):
+        """the peer's answer arrives (accept / refuse) or the wait times out"""
+        th, res = waiting.pop(rid)
+        if how == "timeout":
+            clock.now += 5000.0
+            _PokeEvent.poke()
+        else:
+            rig.answer(rid, how == "accept")
+        th.join(3)
+        if th.is_alive():         # only once ids are already mixed up (its event or map entry went to another channel)
+            diffs.append({"step": -1, "op": "open_channel_stuck_after_" + how, "spec": rid, "code": None})
+            return
+        if how == "timeout":
+            rig.events.append({"op": "timeout", "who": "A", "id": rid, "ctr": 0})
+        if "chan" in res:
+            rig.keep.append(res["chan"])
     for i in live0:                       # channels open before the behaviour starts
         rig.t._channel_counter = real(i)
         ch = rig.local_open()
@@ -1174,6 +1281,13 @@ def id_replay(hist, n_model):
             elif tag == 8:                       # CLOSE for an id that has no channel
                 if rig.peer_close(real(mid)):
                     diffs.append({"step": pos, "op": "duplicate_close", "spec": None, "code": real(mid)})
+            elif tag == 9:                       # open_channel that waits for its answer
+                open_and_wait(mid, pos)
+            elif tag in (10, 11, 12):            # the answer arrives / the wait times out
+                if real(mid) in waiting:
+                    finish(real(mid), {10: "accept", 11: "refuse", 12: "timeout"}[tag])
+                else:
+                    diffs.append({"step": pos, "op": "answer", "spec": real(mid), "code": None})
             elif tag == 2:
                 end = {}
 
@@ -1196,7 +1310,10 @@ def id_replay(hist, n_model):
                     pos += 1
         return None
     run_steps(())
-    tr = rig.trace()
+    tr = rig.trace()                      # (taken before the clean-up below)
+    for rid in list(waiting):
+        if isinstance(rid, int):
+            finish(rid, "accept")
     return tr, diffs, rig
 
 
@@ -1281,11 +1398,59 @@ def id_scenario(prog):
     return scenario
 
 
+def id_timeout_scenario(counter, timeout):
+    """A1: open_channel whose answer never comes (times out after `timeout` virtual seconds); T: a peer open whose
+    check_channel_request returns only after A1 has given up and A2, A3 have each sent a CHANNEL_OPEN; then T
+    registers the peer's channel and answers A2 and A3."""
+    def scenario(S):
+        rig = IdRig(counter, sched=S, reply_mode="queue")
+        st = {"a1": False, "apps": 3}
+
+        def a1():
+            try:
+                rig.t.open_channel("session", timeout=timeout)
+            except Exception:       # noqa  (Timeout opening channel)
+                pass
+            if rig.inbox:
+                rid = rig.inbox.pop(0)           # never answered
+                rig.unanswered.discard(rid)
+                rig.events.append({"op": "timeout", "who": "A1", "id": rid, "ctr": 0})
+            st["a1"] = True
+            st["apps"] -= 1
+
+        def later():
+            S.block(lambda: st["a1"], None, "a1")
+            ch = rig.local_open()
+            if ch is not None:
+                rig.keep.append(ch)
+            st["apps"] -= 1
+
+        def tbody():
+            def hook(chanid):
+                S.block(lambda: st["a1"] and len(rig.inbox) >= 2, None, "window")
+            rig.peer_open(accept=True, window_hook=hook)
+            while st["apps"] > 0 or rig.inbox:
+                S.block(lambda: bool(rig.inbox) or st["apps"] == 0, None, "inbox")
+                if rig.inbox:
+                    rig.answer(rig.inbox.pop(0), True)
+        S.spawn(tbody, "T")
+        S.spawn(a1, "A1")
+        S.spawn(later, "A2")
+        S.spawn(later, "A3")
+
+        def after(ex):
+            tr = rig.trace()
+            tr["quiescent"] = not (ex.hang or ex.stuck or ex.budget_exhausted)
+            return tr
+        return after
+    return scenario
+
+
 def id_explore(prog, mode, bound, max_runs, seed):
     import paramiko.transport as ptr
     import paramiko.channel as pch
     import paramiko.buffered_pipe as bp
-    sc = id_scenario(prog)
+    sc = id_timeout_scenario(prog["counter"], prog["timeout"]) if "timeout" in prog else id_scenario(prog)
     files = {ptr.__file__}
 
     def lf(filename, func):
